@@ -15,7 +15,7 @@ pub struct Entry {
     pub commit: Option<String>,
 }
 
-#[derive(Default)]
+#[derive(Default, Clone)]
 pub struct Known {
     open: BTreeMap<String, String>,
 }
@@ -36,6 +36,24 @@ impl Known {
                 Err(e) => {
                     eprintln!("known_findings.json does not parse: {e}");
                     std::process::exit(2);
+                }
+            }
+        }
+        // development aid: extra proposed entries (never set by the registered commands)
+        if let Ok(extra) = std::env::var("VH_KNOWN_EXTRA") {
+            if let Ok(txt) = std::fs::read_to_string(&extra) {
+                match serde_json::from_str::<Vec<Entry>>(&txt) {
+                    Ok(list) => {
+                        for e in list {
+                            if e.property == property && e.status == "open" {
+                                open.insert(e.key, e.what);
+                            }
+                        }
+                    }
+                    Err(e) => {
+                        eprintln!("VH_KNOWN_EXTRA {extra} does not parse: {e}");
+                        std::process::exit(2);
+                    }
                 }
             }
         }
